@@ -202,6 +202,13 @@ def main(tier, seed):
                 if tier == "quick" and h in ("1", "2") and aff is None:
                     continue
                 jobs.append((("real", h, "1core" if aff else "all"), "real", dict(real_cfg, affinity=aff), None, {"PYTHONHASHSEED": h}))
+        # steer the REAL spawn pool into worker re-use (binds the TLC model to the implementation)
+        steer_ci = 3  # the example-data option set
+        for m in ((1, 2) if tier == "quick" else (1, 2, 3)):
+            jobs.append((("steer", steer_ci, 3, m), "steer", dict(cfgs[steer_ci], chains=3), m, {"PYTHONHASHSEED": str(20 + m)}))
+        if tier == "thorough":
+            jobs.append((("steer", 0, 3, 2), "steer", dict(cfgs[0], chains=3), 2, {"PYTHONHASHSEED": "31"}))
+            jobs.append((("steer", steer_ci, 2, 1), "steer", dict(cfgs[steer_ci], chains=2), 1, {"PYTHONHASHSEED": "32"}))
         if tier == "thorough":
             r3 = dict(cfgs[-1], chains=3)
             for h in ("0", str(1000 + seed)):
@@ -254,6 +261,30 @@ def main(tier, seed):
                         for c in range(K):
                             if c in cold and False:
                                 pass
+        realised = []
+        for key, r in sorted(res.items(), key=lambda kv: repr(kv[0])):
+            if key[0] != "steer" or "error" in r:
+                continue
+            _, ci, K, m = key
+            cls = (tuple(sorted(tuple(h) for h in r["workers"])), tuple(r["completion_order"]))
+            realised.append({"chains": K, "free_workers": m, "workers": r["workers"], "completion_order": r["completion_order"]})
+            chk.traces_validated += 1
+            chk.states.add(("steer",) + key[1:])
+            if any(len(h) > 1 for h in r["workers"]):
+                chk.nontrivial.add(("steer",) + key[1:])
+            if cls not in all_classes.get(K, py if K == 3 else python_classes(K)):
+                chk.violation({"sub": "model-binding"}, {"problem": "the real pool produced a schedule the TLC model does not contain", "observed": r["workers"], "order": r["completion_order"]}, {"steer": list(map(str, key))})
+            cold_ref = {}
+            for (chain, hist) in warm_pairs(all_classes[K] if K in all_classes else python_classes(K)):
+                rr = res.get(("pair", ci, K, chain, hist), {})
+                if not hist and "error" not in rr and rr:
+                    cold_ref[chain] = rr[str(chain)]["digest"]
+            for c, v in r["per_chain"].items():
+                if int(c) in cold_ref and v["digest"] != cold_ref[int(c)]:
+                    chk.violation({"sub": "real-pool-steered", "proposal": cfgs[ci]["proposal"]},
+                                  {"config": cfgs[ci], "realised_schedule": r["workers"], "completion_order": r["completion_order"], "chain": int(c),
+                                   "problem": "trace of the chain on the real pool under this schedule differs from its cold trace"}, {"steer": list(map(str, key))})
+        chk.note("schedule_classes_realised_on_the_real_pool", realised)
         real = {k: v for k, v in res.items() if k[0] == "real" and "error" not in v}
         ref = None
         for k, v in sorted(real.items()):
